@@ -967,10 +967,8 @@ func (e *Engine) timeStampFilterTarFile(start, end time.Time) func(f os.FileInfo
 			return err
 		}
 
-		// Grab the tombstone file if one exists.
-		if ts := r.TombstoneStats(); ts.TombstoneExists {
-			return intar.StreamFile(fi, shardRelativePath, filepath.Base(ts.Path), tw)
-		}
+		// The tombstone file, if one exists, is a file of the snapshot directory
+		// of its own and is streamed as such; the TSM file still has to follow.
 
 		min, max := r.TimeRange()
 		stun := start.UnixNano()
